@@ -184,6 +184,8 @@ def run_part(report, prop, key, u, opts, tier):
             if n_rej <= 50:
                 report.violation(v[4:], {"kind": "match", "pattern": pats[c["p"] - 1], "listing": lsts[c["l"] - 1],
                                          "mfm": c["mfm"], "ofm": c["ofm"], "spelling": rules[o["r"]][3],
+                                         "range": list(rules[o["r"]][4]), "obs": c["obs"], "nostream": c["nostream"], "rand": c["rand"],
+                                         "fresh": opts.get("fresh", False), "debug_level": opts.get("debug_level", False),
                                          "macros": opts.get("macros"), "rule_yaml": job_rules[o["r"]]["yaml"],
                                          "listing_text": job_listings[o["l"]]["text"], "observed": o})
     if n_rej > 50:
@@ -209,17 +211,24 @@ def run_witnesses(report, prop):
 
 
 def check_single(report, w, name):
+    """One (rule, listing) case re-executed and re-validated.  A replay file of a violation carries the exact rule text
+    and listing text that were run (and the range / judgement mode); a known-finding witness only the abstract values."""
     P, L = w["pattern"], w["listing"]
-    doc = render.rule_doc(P, w.get("mfm", False), w.get("ofm", False), opt=w.get("spelling") or {})
-    if (w.get("spelling") or {}).get("alias"):
-        doc = render.share_equal(doc)
-    text = render.dump_yaml(doc)
+    if w.get("rule_yaml"):
+        text = w["rule_yaml"]
+    else:
+        doc = render.rule_doc(P, w.get("mfm", False), w.get("ofm", False), opt=w.get("spelling") or {})
+        if (w.get("spelling") or {}).get("alias"):
+            doc = render.share_equal(doc)
+        text = render.dump_yaml(doc)
     jr = {"id": 0, "yaml": text}
     if w.get("macros"):
         jr["macro_paths"] = w["macros"]
-    obs = matchpipe.drive({"rules": [jr], "listings": [{"id": 0, "text": render.listing_text(L)}], "pairs": "all"},
-                          tag=name)
-    c = matchpipe.case_of(obs[0], 1, 1, w.get("mfm", False), w.get("ofm", False))
+    obs = matchpipe.drive({"rules": [jr], "listings": [{"id": 0, "text": w.get("listing_text") or render.listing_text(L)}],
+                           "pairs": "all", "fresh": w.get("fresh", False), "debug_level": w.get("debug_level", False)}, tag=name)
+    c = matchpipe.case_of(obs[0], 1, 1, w.get("mfm", False), w.get("ofm", False), tuple(w.get("range") or ()))
+    for flag in ("obs", "nostream", "rand"):
+        c[flag] = bool(w.get(flag, False))
     v = matchpipe.validate([P], [L], [c], report, name)[0]
     report.cov["evaluations"] += 1
     report.cov["traces_validated_against_impl"] += 1
@@ -309,7 +318,14 @@ def replay(prop, path):
     v, o = check_single(report, rep["case"], f"{prop}-replay")
     print(f"replay verdict: {v}")
     print(json.dumps(o, indent=1)[:3000])
-    return 1 if v.startswith("rej") else 0
+    if v.startswith("rej"):
+        return 1
+    if rep["case"].get("macros") or rep.get("tier") == "thorough":
+        return 0
+    # cases observed under a variation the single re-execution does not reproduce (batch construction ...): run the
+    # check again and look for the same case
+    from ..common import replay_by_rerun
+    return replay_by_rerun(prop, path)
 
 
 def repo_traces(report):
